@@ -1,2 +1,191 @@
-def run(rep, an, tus):
-    pass
+"""R13a — ABI agreement between Python call sites, the nanobind glue, phonopy.h and the
+C definitions (the glue takes untyped nb::ndarray<> and raw-casts .data())."""
+
+from __future__ import annotations
+
+import ast
+import re
+
+from engine import cast, core, pyabs, xabi
+from engine.core import AnalysisError
+
+# C element type  <-  abstract Python dtypes that are layout compatible
+OK = {
+    "double": {"double", "pyfloat", "pyint", "double<-complex128"},  # scalars: numpy float scalars are accepted as double
+    "int64_t": {"int64", "pyint", "pybool", "int_", "pyint?"},
+    "int": {"intc", "pyint", "pybool", "pyint?"},
+    "const char *": {"str"},
+    "char *": {"str"},
+}
+SCALAR_PY = {"pyfloat", "pyint", "pybool", "pyint?", "str"}
+
+
+def _norm_type(t: str) -> str:
+    return re.sub(r"\s+", " ", t.replace("const ", "").replace(" const", "")).strip()
+
+
+def run(rep: core.Report, an, tus):
+    rep.rule("R13a.entries", "every m.def entry resolves to a glue function that forwards to one kernel with the arity of its phonopy.h prototype; prototype == definition (types)", 21)
+    rep.rule("R13a.roles", "no argument of a C/C++ call is a variable named like a *different* parameter of the callee (swapped-argument detector over all resolved call sites)", 500)
+    rep.rule("R13a.glue", "every nb::ndarray<> parameter is cast exactly once, to a pointer type equal to its local's declared type; size variables come from shape(k) of a parameter", 100)
+    rep.rule("R13a.arity", "every Python call site passes exactly as many positional arguments as the glue function declares, no keywords", 22)
+    rep.rule("R13a.dtype", "the abstract dtype of each Python argument is layout-compatible with the C element type the glue casts it to; arrays are not known to be non-contiguous; arrays are not scalars", 150)
+    rep.rule("R13a.rank", "a size read from shape(k) is read from an argument whose Python-side rank exceeds k (where the allocation shape is visible)", 6)
+
+    glue, exported = xabi.glue_table()
+    protos = xabi.header_prototypes()
+    defs = {}
+    all_params = {}
+    for tu in tus:
+        for n, f in tu.functions.items():
+            defs.setdefault(n, (tu, f))
+            all_params.setdefault(n, [p.get("name") for p in cast.params(f)])
+    for h in ("c/phonopy.h", "c/dynmat.h", "c/derivative_dynmat.h", "c/tetrahedron_method.h", "c/rgrid.h"):
+        for n, sig in xabi.header_prototypes(h).items():
+            all_params.setdefault(n, [s[0] for s in sig])
+
+    if len(exported) < 21:
+        raise AnalysisError(f"R13a: {len(exported)} m.def entries found, 21 confirmed by reading")
+
+    # --- entries ---------------------------------------------------------
+    for ex, fname in sorted(exported.items()):
+        if fname.startswith("phpy_"):
+            ok = fname in protos and fname in defs and len(protos[fname]) == 0
+            rep.instance("R13a.entries", cast.GLUE, fname, f"m.def('{ex}') -> {fname}()", ok, "directly exported C function must be declared in phonopy.h, defined, and take no arguments")
+            continue
+        g = glue[fname]
+        kernels = [(cn, args) for cn, args, _ in g.calls if cn.startswith("phpy_")]
+        ok = len(kernels) == 1 and kernels[0][0] in protos
+        why = f"glue function forwards to {[k[0] for k in kernels]}"
+        if ok:
+            cn, args = kernels[0]
+            ok = len(args) == len(protos[cn])
+            why = f"{cn} takes {len(protos[cn])} arguments, glue passes {len(args)}"
+            if ok and cn in defs:
+                dsig = xabi.c_signature(defs[cn][1])
+                if [_norm_type(t) for _, t in dsig] != [_norm_type(t) for _, t in protos[cn]]:
+                    ok, why = False, f"phonopy.h prototype of {cn} and its definition disagree on parameter types"
+        rep.instance("R13a.entries", cast.GLUE, fname, f"m.def('{ex}') -> {fname} -> {kernels[0][0] if kernels else '?'}", ok, why, line=g.line)
+
+    # --- swapped-argument detector over every resolved C call -------------
+    for tu in tus:
+        for fname, fn in tu.functions.items():
+            for c in cast.walk(fn):
+                if c.get("kind") != "CallExpr":
+                    continue
+                cn = cast.callee_name(c)
+                if cn not in all_params:
+                    continue
+                ps, args = all_params[cn], cast.call_args(c)
+                if len(ps) != len(args):
+                    rep.instance("R13a.roles", tu.rel, fname, f"{cn}(…): {len(args)} arguments for {len(ps)} parameters", False, "arity mismatch", line=tu.line(c))
+                    continue
+                names = [cast.ref_name(a) for a in args]
+                for i, (a, p) in enumerate(zip(names, ps)):
+                    if a is None or not p:
+                        continue
+                    swapped = a != p and a in ps and ps.index(a) != i and names[ps.index(a)] != a
+                    rep.instance("R13a.roles", tu.rel, fname, f"{cn}(… arg {i} '{a}' -> parameter '{p}')", not swapped,
+                                 f"argument '{a}' is passed in the position of parameter '{p}' although the callee has a parameter named '{a}' at position {ps.index(a) if a in ps else '?'}: arguments swapped",
+                                 line=tu.line(c), nontrivial=(a == p))
+    # header vs definition names (same detector across the declaration boundary)
+    for n, sig in protos.items():
+        if n in defs:
+            dn = [p.get("name") for p in cast.params(defs[n][1])]
+            hn = [s_[0] for s_ in sig]
+            bad = [(i, h, d) for i, (h, d) in enumerate(zip(hn, dn)) if h != d and h in dn and dn.index(h) != i]
+            rep.instance("R13a.roles", "c/phonopy.h", n, f"prototype parameter names vs definition ({len(hn)} parameters)", not bad and len(hn) == len(dn),
+                         f"header and definition order their parameters differently: {bad[:2]}")
+
+    # --- glue internals ---------------------------------------------------------
+    for fname, g in sorted(glue.items()):
+        for p in g.params:
+            if p.kind != "ndarray":
+                continue
+            ok = len(p.casts) == 1 and p.casts[0][1] is not None
+            why = f"{len(p.casts)} .data() casts"
+            if ok:
+                local, ct = p.casts[0]
+                decl = g.locals_.get(local)
+                ok = decl is not None and _norm_type(decl) == _norm_type(ct)
+                why = f"cast to '{ct}' but local '{local}' is declared '{decl}'"
+            rep.instance("R13a.glue", cast.GLUE, fname, f"{p.name}.data() -> ({p.casts[0][1] if p.casts else '?'}) {p.casts[0][0] if p.casts else '?'}", ok, why, line=g.line)
+            for local, axis in p.shapes:
+                rep.instance("R13a.glue", cast.GLUE, fname, f"{local} = {p.name}.shape({axis})", axis is not None and cast.is_int_type(g.locals_.get(local, "")), "size variable is not an integer local read from a literal axis", line=g.line)
+
+    # --- Python call sites ---------------------------------------------------
+    R = pyabs.Resolver()
+    sites = [s for s in xabi.python_sites()]
+    n_sites = 0
+    pairs = 0
+    for s in sites:
+        if s.entry not in exported:
+            rep.instance("R13a.arity", s.file, s.qualname, f"phonoc.{s.entry}(…)", False, f"'{s.entry}' is not exported by the extension module", line=s.line)
+            continue
+        fname = exported[s.entry]
+        if fname.startswith("phpy_"):
+            rep.instance("R13a.arity", s.file, s.qualname, f"phonoc.{s.entry}()", not s.call.args and not s.call.keywords, "capability function takes no arguments", line=s.line, nontrivial=False)
+            continue
+        g = glue[fname]
+        n_sites += 1
+        ok = len(s.call.args) == len(g.params) and not s.call.keywords and not any(isinstance(a, ast.Starred) for a in s.call.args)
+        rep.instance("R13a.arity", s.file, s.qualname, f"phonoc.{s.entry}: {len(s.call.args)} positional arguments for {len(g.params)} glue parameters", ok,
+                     "argument count differs from the glue function's parameter list (every later pointer would be bound to the wrong array)", line=s.line)
+        if not ok:
+            continue
+        fn = core.enclosing_function(s.call)
+        cls = None
+        cur = fn
+        while cur is not None:
+            cur = getattr(cur, "_parent", None)
+            if isinstance(cur, ast.ClassDef):
+                cls = cur
+                break
+        for a, p in zip(s.call.args, g.params):
+            exp = p.elem if p.kind == "ndarray" else _norm_type(p.ctype)
+            exp_key = exp if exp in OK else ("const char *" if "char" in exp else exp)
+            if exp_key not in OK:
+                raise AnalysisError(f"{cast.GLUE}::{fname}: parameter {p.name} has unmodelled type '{exp}'")
+            srcs = R.resolve(a, fn, cls)
+            pairs += 1
+            complex_ok = p.kind == "ndarray" and p.casts and "[2]" in (p.casts[0][1] or "")
+            bad = [x for x in srcs if x.dtype not in ("?", "none") and not x.dtype.startswith("?") and x.dtype not in OK[exp_key] and not (x.dtype == "complex128" and complex_ok)]
+            if p.kind == "ndarray":
+                bad += [x for x in srcs if x.dtype in SCALAR_PY]
+            nonc = [x for x in srcs if p.kind == "ndarray" and x.contig is False]
+            unknown = [x for x in srcs if x.dtype == "?" or x.dtype.startswith("?")]
+            for u in unknown[:1]:
+                rep.unknown(f"{s.file}::{s.qualname} phonoc.{s.entry} {p.name} <- {core.norm(core.src(a), 40)}: {u.why[:90]}")
+            ok = not bad and not nonc
+            why = ""
+            if bad:
+                why = f"C side reads '{exp}' ({p.casts[0][1] if p.casts else p.ctype}) but a source of this argument is {bad[0].dtype} [{bad[0].why[:100]}]: the kernel would reinterpret the buffer"
+            elif nonc:
+                why = f"a source of this argument is a non-contiguous view [{nonc[0].why[:100]}]; the glue reads the raw buffer in C order"
+            rep.instance("R13a.dtype", s.file, s.qualname, f"phonoc.{s.entry} {p.name} ({exp}) <- {core.norm(core.src(a), 60)}", ok, why, line=a.lineno,
+                         nontrivial=bool([x for x in srcs if x not in unknown]),
+                         sample={"arg": core.src(a)[:60], "c_type": p.casts[0][1] if p.casts else p.ctype, "sources": sorted({x.short() for x in srcs})[:5]})
+            # rank of shape() reads
+            for local, axis in p.shapes:
+                ranks = {len(x.shape) for x in srcs if x.shape not in (None, ()) and not any(t.startswith("<") for t in x.shape)}
+                if ranks:
+                    rep.instance("R13a.rank", s.file, s.qualname, f"phonoc.{s.entry}: {local} = {p.name}.shape({axis}); Python rank {sorted(ranks)}", all(r > axis for r in ranks),
+                                 f"the glue reads axis {axis} of an array allocated with rank {sorted(ranks)}", line=a.lineno)
+    # sibling agreement of shape-axis provenance across glue functions
+    axes = {}
+    for fname, g in glue.items():
+        for p in g.params:
+            if not p.shapes:
+                continue
+            sizes = tuple(sorted(re.sub(r"^n(um)?_?", "", local) for local, _ in p.shapes))
+            layout = tuple(sorted((re.sub(r"^n(um)?_?", "", local), axis) for local, axis in p.shapes))
+            axes.setdefault((re.sub(r"^py_", "", p.name), sizes), set()).add((layout, fname))
+    for (pn, sizes), uses in sorted(axes.items()):
+        if len(uses) < 2:
+            continue
+        layouts = {l for l, _ in uses}
+        rep.instance("R13a.glue", cast.GLUE, "<glue>", f"sizes {sizes} are read from the same axes of '{pn}' in {len(uses)} glue functions", len(layouts) == 1,
+                     f"glue functions disagree on which axis of '{pn}' holds which size: {sorted(uses)}")
+    if n_sites < 22:
+        raise AnalysisError(f"R13a: {n_sites} Python call sites with arguments found, 22 confirmed by reading")
+    rep.extra["abi"] = {"exported": len(exported), "python_sites": n_sites, "argument_pairs": pairs}
